@@ -68,8 +68,10 @@ class Community(Attribute):
         """
         community_hex = b''
         for community in value:
-            if community.upper() in bgp_cons.WELL_KNOW_COMMUNITY_STR_2_INT:
-                value = bgp_cons.WELL_KNOW_COMMUNITY_STR_2_INT[community.upper()]
+            well_known = dict(
+                (name.upper(), num) for name, num in bgp_cons.WELL_KNOW_COMMUNITY_STR_2_INT.items())
+            if community.upper() in well_known:
+                value = well_known[community.upper()]
                 community_hex += struct.pack('!I', value)
             else:
                 try:
